@@ -13,6 +13,7 @@ def run(ctx, rep):
     splayrules.check_direction(ctx, rep)
     splayrules.check_mirror(ctx, rep)
     splayrules.check_lookup(ctx, rep)
+    splayrules.check_returns(ctx, rep)
     shaperules.check_insert(ctx, rep)
     shaperules.check_remove(ctx, rep)
     shaperules.check_into_iter(ctx, rep)
